@@ -782,14 +782,14 @@ class DiHypergraph:
                     self._edge[idx]["out"].add(node)
 
                 self._edge_attr[idx] = self._edge_attr_dict_factory()
+                if format2 or format4:
+                    update_uid_counter(self, idx)
                 self._edge_attr[idx].update(attr)
                 self._edge_attr[idx].update(eattr)
 
             try:
                 e = next(new_edges)
             except StopIteration:
-                if format2 or format4:
-                    update_uid_counter(self, idx)
                 break
 
     def add_node_to_edge(self, edge, node, direction):
